@@ -45,7 +45,7 @@ def pit_cases(draw):
     fam = draw(st.sampled_from(['1d', '2d']))
     spec = draw(ng.netspecs(ng.Profile(
         family=fam, pads=('causal', 'same', 'none', 'valid'), standalone_bn=True, exclude=True, reuse=True,
-        multi_input=True, max_blocks=4, min_blocks=1)))
+        multi_input=True, max_blocks=4, min_blocks=1, fixtures=True)))
     mode = draw(st.sampled_from(['auto', 'auto', 'auto', 'import']))
     plain = []
     if mode == 'import':
